@@ -31,7 +31,25 @@ impl SelectExecutionEngine  {
             if select_statement.is_wildcard_projection() {
                 for name in row.keys() {
                     column_names.push(name.clone());
-                    result_columns.push(expression_execution_engine.evaluate(&ExpressionTree::ColumnAccess(name.clone()))?);
+
+                    // The bare name `input` denotes the raw line: a column that is itself called `input` is reached through its table
+                    let mut value = None;
+                    if name == "input" {
+                        let tables = std::iter::once(&select_statement.from).chain(select_statement.join.iter().map(|join| &join.joined_table));
+                        for table in tables {
+                            if let Ok(column_value) = expression_execution_engine.evaluate(&ExpressionTree::ColumnAccess(format!("{}.{}", table, name))) {
+                                value = Some(column_value);
+                                break;
+                            }
+                        }
+                    }
+
+                    let value = match value {
+                        Some(value) => value,
+                        None => expression_execution_engine.evaluate(&ExpressionTree::ColumnAccess(name.clone()))?
+                    };
+
+                    result_columns.push(value);
                 }
             } else {
                 column_names = select_statement.projections.iter().map(|projection| projection.0.clone()).collect();
